@@ -314,6 +314,7 @@ class Spline:
                 ('SP.c2', 'the second derivative of piece j at x_{j+1} equals that of piece j+1'),
                 ('SP.c1', 'the tridiagonal row solved at knot i is first-derivative continuity at knot i (up to a non-zero constant)'),
                 ('SP.lines', 'for ordinates on a straight line y = m x + q the right-hand side vanishes identically, hence c = 0, and then b == m, d == 0'),
+                ('SP.independent', 'in the evaluator no scalar state is carried from one query to the next: each prediction depends only on its own abscissa and the table'),
                 ('SP.lookup', 'a piece evaluated under a range guard is guarded by x_j <= x <= x_{j+1} of its own row (column 0)'),
                 ('SP.eval', 'cubic_spline_predict reads the coefficient table in the column order in which it was written, as a cubic in (x - x_j)')):
             R[name] = chk.rule(name, text)
@@ -812,6 +813,32 @@ class Spline:
             for c in kids(n):
                 visit(c, dict(scope), dict(ie), guard)
         visit(g.body, {}, ienv)
+        # each predicted value is a function of its own abscissa and the table: no state flows from one query to the next
+        qloops = [l for l in kids(g.body) if strip(l).get('kind') == 'ForStmt']
+        for l in qloops:
+            l = strip(l)
+            if not any(x.get('kind') == 'ForStmt' for x in walk(flow.for_parts(l)[3])):
+                continue
+            car = loop_carried_scalars(g, l)
+            if not car:
+                self.chk.instance('SP.independent', '%s query loop: every scalar written in an iteration is defined in that iteration before it is read' % g.unit.where(l))
+            # a cache that is re-validated needs a second, complete scan (from piece 0) in the same iteration: then the verdict is left open
+            full_scans = 0
+            for x in walk(flow.for_parts(l)[3]):
+                if x.get('kind') == 'ForStmt':
+                    i2 = flow.induction(x)
+                    if i2 is not None and i2['init'] == Poly.const(0):
+                        full_scans += 1
+            for nm, node in sorted(car.items()):
+                if full_scans:
+                    self.chk.instance('SP.independent', '%s query loop carries `%s` between queries but also scans from piece 0: not decided' %
+                                      (g.unit.where(node), nm), 'undecided')
+                    continue
+                self.chk.instance('SP.independent', '%s query loop carries `%s` from one query to the next' % (g.unit.where(node), nm), 'refuted')
+                self.chk.violation(Finding('SP.independent', rel(g.file), g.name, 'carried:' + nm, g.unit.where(node),
+                                           '%s: `%s` is read at %s before the iteration has written it, and a previous iteration writes it: the value '
+                                           'predicted for a query depends on the queries before it (order of the abscissae), not only on its own '
+                                           'abscissa and the coefficient table' % (g.name, nm, g.unit.where(node))))
         if sites < 2:
             self.chk.broke('%s: %d evaluation expressions found, expected the in-range and the fall-back one' % (EVAL, sites))
 
@@ -845,6 +872,97 @@ class Spline:
             self.chk.violation(Finding('SP.eval', rel(g.file), g.name, 'eval-form', g.unit.where(n),
                                        '%s: the evaluation expression is not a + b t + c t^2 + d t^3 with t = x - x_j over the columns (x,a,b,c,d) '
                                        'written by %s; difference %s' % (g.name, FUNC, self.short(r - want))))
+
+
+def loop_carried_scalars(f, loop):
+    """scalar locals that an iteration of `loop` may read before writing them although the body writes them (state carried from
+    one iteration to the next), induction variable excluded.  Structured walk: a definition counts after an if only when both
+    arms define, after an inner loop only when made by its init clause."""
+    ind = flow.induction(loop)
+    ivar = ind['var'].split('#')[0] if ind else None
+    init, cond, inc, body = flow.for_parts(loop)
+    written = set()
+    for x in walk(body):
+        k = x.get('kind')
+        if k in ('BinaryOperator', 'CompoundAssignOperator') and (x.get('opcode') or '').endswith('=') and x.get('opcode') not in ('==', '!=', '<=', '>='):
+            t = strip(kids(x)[0])
+            if t.get('kind') == 'DeclRefExpr':
+                written.add(t['referencedDecl'].get('name'))
+        elif k == 'UnaryOperator' and x.get('opcode') in ('++', '--'):
+            t = strip(kids(x)[0])
+            if t.get('kind') == 'DeclRefExpr':
+                written.add(t['referencedDecl'].get('name'))
+    written.discard(ivar)
+    carried = {}
+
+    def uses(n, defined):
+        for x in walk(n):
+            if x.get('kind') == 'DeclRefExpr':
+                nm = x['referencedDecl'].get('name')
+                if nm in written and nm not in defined and nm not in carried:
+                    carried[nm] = x
+
+    def expr(n, defined):
+        """evaluate an expression statement: uses first, then its definitions"""
+        n0 = strip(n)
+        k = n0.get('kind')
+        if k == 'BinaryOperator' and n0.get('opcode') == '=':
+            t = strip(kids(n0)[0])
+            expr(kids(n0)[1], defined)
+            if t.get('kind') == 'DeclRefExpr':
+                defined.add(t['referencedDecl'].get('name'))
+            else:
+                uses(t, defined)
+            return
+        uses(n0, defined)
+
+    def stmt(n, defined):
+        k = n.get('kind')
+        if k == 'CompoundStmt':
+            for c in kids(n):
+                stmt(c, defined)
+        elif k == 'DeclStmt':
+            for vd in kids(n):
+                if vd.get('kind') == 'VarDecl':
+                    if kids(vd):
+                        uses(kids(vd)[-1], defined)
+                        defined.add(vd['name'])
+        elif k == 'IfStmt':
+            ks = kids(n)
+            uses(ks[0], defined)
+            d1, d2 = set(defined), set(defined)
+            stmt(ks[1], d1)
+            if len(ks) > 2:
+                stmt(ks[2], d2)
+            defined |= (d1 & d2)
+        elif k == 'ForStmt':
+            i2, c2, inc2, b2 = flow.for_parts(n)
+            if i2 is not None and i2.get('kind'):
+                if i2.get('kind') == 'DeclStmt':
+                    stmt(i2, defined)
+                else:
+                    expr(i2, defined)
+            if c2 is not None and c2.get('kind'):
+                uses(c2, defined)
+            inner = set(defined)
+            stmt(b2, inner)
+            if inc2 is not None and inc2.get('kind'):
+                uses(inc2, inner)
+        elif k in ('WhileStmt', 'DoStmt'):
+            inner = set(defined)
+            for c in kids(n):
+                if c.get('kind') in ('CompoundStmt',):
+                    stmt(c, inner)
+                else:
+                    uses(c, inner)
+        elif k in ('BreakStmt', 'ContinueStmt', 'NullStmt'):
+            pass
+        elif k == 'ReturnStmt':
+            uses(n, defined)
+        else:
+            expr(n, defined)
+    stmt(body, set())
+    return carried
 
 
 def _lookup_rule(self, n, guard, S, row, xv):
